@@ -3,6 +3,7 @@ import math
 
 from .. import cfgrun, core, util
 from ..sexp import Atom
+from . import c09_host
 
 RULE = ("for every datatype of the stock registry with a written contract: all strings up to the tier's per-type length over an "
         "alphabet holding one representative per character class the type distinguishes, single-character and 'a'+c probes "
@@ -194,10 +195,16 @@ def run(ctx):
             return (isinstance(x, float) and isinstance(y, float) and math.isnan(x) and math.isnan(y)) or x == y
         if set(rec.kw) != set(want) or not all(eqf(rec.kw[k], want[k]) for k in want):
             ctx.disagree("timedelta", s, {k: repr(v) for k, v in rec.kw.items()}, a)
+    # the six host-dependent datatypes (existing-*, locale behind MemoizedConversion, timedelta through the complete table)
+    c09_host.run_host(ctx)
     ctx.cov["exhaustive"] = True
-    return core.finish(ctx, obligations, discharged, names, RULE,
+    return core.finish(ctx, obligations, discharged, names, RULE + "; " + c09_host.RULE_HOST,
                        "lake build ZCV.Props.C09 && lake env lean ZCV/Audit/C09.lean",
                        ["inet_pton(AF_INET6) re-implemented after glibc (ZCV/Inet.lean) and compared with socket.inet_pton on every probe",
                         "float: acceptance grammar only (values symbolic); inf/nan are accepted by the code and pinned by the repository's own tests although the documentation excludes them",
-                        "locale and the existing-* types depend on the host and are not modelled",
+                        "host parameters (ZCV/Model/Host.lean): os.path.isdir/isfile/exists/expanduser, locale.setlocale acceptance and the numeric "
+                        "verdict of the datetime.timedelta constructor are fields of a Host the theorems quantify over; every run probes the "
+                        "real host (scratch tree, HOME, cwd, locales) and evaluates the model on the probed table; os.path.dirname is modelled exactly",
+                        "existing-file tests os.path.exists (a directory is accepted; pinned by the repository's test_existing_file) although the "
+                        "documentation says 'a file': modelled as the code has it (C09_existingFile_spec / _accepts_directory / _partial)",
                         "U+0130 and U+03A3 (irregular lower-casing) are outside the model's domain"])
